@@ -86,6 +86,8 @@ impl Drop for Arena {
 /// (the optimiser would be free to move stores to plain fields past the call).
 pub struct Tracker {
     live: RefCell<HashMap<usize, usize>>,
+    /// returned pointer -> pointer malloc gave us
+    raw: RefCell<HashMap<usize, usize>>,
     requests: Cell<usize>,
     frees: Cell<usize>,
     /// fail exactly this request index (0-based)
@@ -100,7 +102,7 @@ pub struct Tracker {
 
 impl Tracker {
     pub fn new(fill: u8) -> Box<Tracker> {
-        let mut t = Box::new(Tracker { live: RefCell::new(HashMap::new()), requests: Cell::new(0), frees: Cell::new(0), fail_at: Cell::new(None), fail_from: Cell::new(None), fill, errors: RefCell::new(Vec::new()), opaque: 0, failed: Cell::new(0) });
+        let mut t = Box::new(Tracker { live: RefCell::new(HashMap::new()), raw: RefCell::new(HashMap::new()), requests: Cell::new(0), frees: Cell::new(0), fail_at: Cell::new(None), fail_from: Cell::new(None), fill, errors: RefCell::new(Vec::new()), opaque: 0, failed: Cell::new(0) });
         t.opaque = &*t as *const Tracker as usize;
         t
     }
@@ -114,7 +116,8 @@ impl Tracker {
     }
     pub fn leak_free_all(&self) {
         for (p, _) in self.live.borrow_mut().drain() {
-            unsafe { libc::free(p as *mut c_void) };
+            let raw = self.raw.borrow_mut().remove(&p).unwrap_or(p);
+            unsafe { libc::free(raw as *mut c_void) };
         }
     }
     pub fn requests(&self) -> usize {
@@ -179,13 +182,34 @@ pub unsafe extern "C" fn zalloc(opaque: *mut c_void, items: c_uint, size: c_uint
         t.failed.set(t.failed.get() + 1);
         return core::ptr::null_mut();
     }
-    let p = unsafe { libc::malloc(n.max(1)) } as *mut u8;
-    if p.is_null() {
+    // zalloc has no alignment contract: hand out blocks at every address residue mod 64 in turn (an allocator that
+    // packs blocks byte-granularly), with canary bytes directly before and after the n bytes that were asked for
+    let raw = unsafe { libc::malloc(n + 3 * PAD) } as *mut u8;
+    if raw.is_null() {
         return core::ptr::null_mut();
     }
-    unsafe { core::ptr::write_bytes(p, t.fill, n) };
+    let residue = RESIDUES[idx % RESIDUES.len()];
+    let base = ((raw as usize + PAD + 63) & !63) + residue;
+    let p = base as *mut u8;
+    debug_assert!(base + n + CANARY <= raw as usize + n + 3 * PAD);
+    unsafe {
+        core::ptr::write_bytes(p.sub(CANARY), 0xCB, CANARY);
+        core::ptr::write_bytes(p, t.fill, n);
+        core::ptr::write_bytes(p.add(n), 0xCB, CANARY);
+    }
     t.live.borrow_mut().insert(p as usize, n);
+    t.raw.borrow_mut().insert(p as usize, raw as usize);
     p as *mut c_void
+}
+
+const PAD: usize = 128;
+const CANARY: usize = 32;
+const RESIDUES: [usize; 12] = [0, 57, 16, 61, 8, 59, 1, 63, 32, 58, 60, 33];
+
+fn canaries_ok(p: *const u8, n: usize) -> (bool, bool) {
+    let before = unsafe { core::slice::from_raw_parts(p.sub(CANARY), CANARY) }.iter().all(|&b| b == 0xCB);
+    let after = unsafe { core::slice::from_raw_parts(p.add(n), CANARY) }.iter().all(|&b| b == 0xCB);
+    (before, after)
 }
 
 pub unsafe extern "C" fn zfree(opaque: *mut c_void, ptr: *mut c_void) {
@@ -197,9 +221,14 @@ pub unsafe extern "C" fn zfree(opaque: *mut c_void, ptr: *mut c_void) {
     let removed = t.live.borrow_mut().remove(&(ptr as usize));
     match removed {
         Some(n) => {
+            let (b, a) = canaries_ok(ptr as *const u8, n);
+            if !b || !a {
+                t.errors.borrow_mut().push(format!("the library wrote outside a block obtained from zalloc ({} bytes at address = {} mod 64): bytes directly {} the block were modified", n, ptr as usize % 64, if !a { "after" } else { "before" }));
+            }
             // poison, so that use-after-free changes observable behaviour deterministically
             unsafe { core::ptr::write_bytes(ptr as *mut u8, 0xDD, n) };
-            unsafe { libc::free(ptr) };
+            let raw = t.raw.borrow_mut().remove(&(ptr as usize)).unwrap_or(ptr as usize);
+            unsafe { libc::free(raw as *mut c_void) };
         }
         None => {
             t.errors.borrow_mut().push(format!("zfree({:p}) of a block that is not live in this allocator (double free or foreign pointer)", ptr));
